@@ -10,6 +10,7 @@ import (
 	"encoding/json"
 	"fmt"
 	"io"
+	"strconv"
 	"strings"
 	"sync"
 	"time"
@@ -26,6 +27,7 @@ type ConnCfg struct {
 	Pings     []int `json:"Pings"`
 	CtxCalls  []int `json:"CtxCalls"`
 	FailCalls []int `json:"FailCalls"`
+	NoMethod  []int `json:"NoMethodCalls"` // subset of FailCalls issued for a method the server does not have
 	PadSize   int   `json:"PadSize"`
 }
 
@@ -79,6 +81,7 @@ type ConnRun struct {
 	marshal  *gate
 	finish   *gate
 	closeG   *gate
+	sendGate *gate    // client: in send(), after the call was registered and the mutex released, before anything else of the call is read
 	wfail    sync.Map // id -> true: next write of this call fails
 	calls    map[int]*callState
 	srvDone  chan struct{}
@@ -117,6 +120,7 @@ func newConnRun(name string, cfg ConnCfg, gated bool) *ConnRun {
 	r.wire = NewWire(r.Run, gated)
 	if gated {
 		r.marshal, r.finish, r.closeG = newGate(), newGate(), newGate()
+		r.sendGate = newGate()
 	}
 	r.ccodec = &hcodec{client: true, marshal: r.marshal, finish: r.finish}
 	r.scodec = &hcodec{}
@@ -154,6 +158,16 @@ func newConnRun(name string, cfg ConnCfg, gated bool) *ConnRun {
 	cc := rpc.NewClientCodec(r.ccodec, nil, r.wire.cli, 0)
 	r.conn = rpc.NewConnWithCodec(cc)
 	route(r.conn, r.Run)
+	if r.sendGate != nil {
+		setGate(r.conn, func(ev string, sub interface{}) {
+			if ev == "c.send.gate" {
+				// the goroutine has just emitted the c.register of the call it is sending
+				if id := r.lastRegisteredBy(goid()); id != 0 {
+					r.sendGate.wait(key(id))
+				}
+			}
+		})
+	}
 	if cfg.CliPipe {
 		r.conn.SetPipelining(true)
 	}
@@ -362,6 +376,15 @@ func (r *ConnRun) kindOfCall(c int) string {
 	return "call"
 }
 
+// method: calls of the NoMethod class name a method the server does not have (the call id is part of the name so that
+// the error text identifies the call)
+func (r *ConnRun) method(c int) string {
+	if inSet(r.cfg.NoMethod, c) {
+		return "Svc.Missing" + strconv.Itoa(c)
+	}
+	return "Svc.Do"
+}
+
 func (r *ConnRun) gkey(c int) string {
 	if r.kindOfCall(c) == "ping" {
 		return "ping"
@@ -410,7 +433,7 @@ func (r *ConnRun) start(c int) {
 		r.wg.Add(1)
 		go func() {
 			defer r.wg.Done()
-			err := r.conn.CallWithContext(ctx, "Svc.Do", cs.args, cs.reply)
+			err := r.conn.CallWithContext(ctx, r.method(c), cs.args, cs.reply)
 			signal(err)
 		}()
 	default:
@@ -418,7 +441,7 @@ func (r *ConnRun) start(c int) {
 		cs.reply = &Reply{}
 		cs.done = make(chan *rpc.Call, 8)
 		goCall := func() {
-			cs.call = r.conn.Go("Svc.Do", cs.args, cs.reply, cs.done)
+			cs.call = r.conn.Go(r.method(c), cs.args, cs.reply, cs.done)
 		}
 		// watcher: observes every signal
 		r.wg.Add(1)
@@ -455,9 +478,37 @@ func (r *ConnRun) start(c int) {
 		n0 := r.marshal.arrivedCount(k)
 		_ = n0
 		r.await(fmt.Sprintf("send of %d", c), func() bool {
-			return r.marshal.arrivedCount(k) > 0 || r.Count("c.refuse", c, -1) > 0 || r.countSeqAny("c.unregister", c) > 0
+			return r.sendGate.arrivedCount(key(c)) > 0 || r.marshal.arrivedCount(k) > 0 || r.Count("c.refuse", c, -1) > 0 || r.countSeqAny("c.unregister", c) > 0
 		})
 	}
+}
+
+// lastRegisteredBy returns the call id of the latest c.register emitted by goroutine gid
+func (r *ConnRun) lastRegisteredBy(gid uint64) int {
+	r.Run.mu.Lock()
+	defer r.Run.mu.Unlock()
+	for i := len(r.Run.evs) - 1; i >= 0; i-- {
+		e := r.Run.evs[i]
+		if e.Ev == "c.register" && e.gid == gid {
+			return e.C
+		}
+	}
+	return 0
+}
+
+// countHandle counts v.handle events of the request carrying call c
+func (r *ConnRun) countHandle(c int) int {
+	r.Run.mu.Lock()
+	defer r.Run.mu.Unlock()
+	n := 0
+	for _, e := range r.Run.evs {
+		if e.Ev == "v.handle" {
+			if id, ok := r.Run.idBySeq[e.Seq]; ok && id == c {
+				n++
+			}
+		}
+	}
+	return n
 }
 
 func (r *ConnRun) countSeqAny(ev string, c int) int {
@@ -498,6 +549,7 @@ func (r *ConnRun) exec(st Step) {
 		r.await(fmt.Sprintf("Refuse(%d)", c), func() bool { return r.countSeqAny("c.refuse", c)+r.countSeqAny("c.register", c) > 0 })
 	case "WriteOK":
 		if r.marshal != nil {
+			r.sendGate.release(key(c), 0) // the sender proceeds from the point just after registration
 			k := r.gkey(c)
 			if r.await(fmt.Sprintf("write gate of %d", c), func() bool { return r.marshal.arrivedCount(k) > 0 }) {
 				n0 := r.countWrite("c2s", c)
@@ -509,6 +561,7 @@ func (r *ConnRun) exec(st Step) {
 		}
 	case "WriteFail":
 		if r.marshal != nil {
+			r.sendGate.release(key(c), 0) // the sender proceeds from the point just after registration
 			k := r.gkey(c)
 			if r.await(fmt.Sprintf("write gate of %d", c), func() bool { return r.marshal.arrivedCount(k) > 0 }) {
 				if k != "ping" {
@@ -520,6 +573,7 @@ func (r *ConnRun) exec(st Step) {
 		}
 	case "MarshalFail":
 		if r.marshal != nil {
+			r.sendGate.release(key(c), 0) // the sender proceeds from the point just after registration
 			k := r.gkey(c)
 			if r.await(fmt.Sprintf("marshal gate of %d", c), func() bool { return r.marshal.arrivedCount(k) > 0 }) {
 				r.marshal.release(k, decMFail)
@@ -538,6 +592,9 @@ func (r *ConnRun) exec(st Step) {
 		r.await("SrvDecode", func() bool { return r.CountEv("v.dispatch")+r.CountEv("v.drop") >= r.CountEv("v.recv") })
 	case "SrvExecBegin":
 		r.await(fmt.Sprintf("SrvExecBegin(%d)", c), func() bool { return r.Count("h.begin", c, -1) > 0 })
+	case "SrvLookupFail":
+		// library step: handleRequest finds no such method
+		r.await(fmt.Sprintf("SrvLookupFail(%d)", c), func() bool { return r.countHandle(c) > 0 })
 	case "SrvExecEnd":
 		if r.svc.exec != nil {
 			if r.await(fmt.Sprintf("handler gate of %d", c), func() bool { return r.svc.exec.arrivedCount(key(c)) > 0 }) {
@@ -690,6 +747,7 @@ func (r *ConnRun) allSignalled() bool {
 func (r *ConnRun) finalize(hangBound time.Duration) (hung []int) {
 	// 1. free running
 	if r.marshal != nil {
+		r.sendGate.openAll(0)
 		r.marshal.openAll(decOK)
 		r.finish.openAll(0)
 		r.closeG.openAll(0)
@@ -767,6 +825,7 @@ func (r *ConnRun) finalize(hangBound time.Duration) (hung []int) {
 	}
 	r.add(&Ev{Ev: "obs.end", Seq: -1, Sent: -1, A: r.svc.maxLv})
 	unroute(r.conn)
+	setGate(r.conn, nil)
 	dropCallRoutes(r.Run)
 	return hung
 }
@@ -779,11 +838,20 @@ func (r *ConnRun) trace() []*Ev {
 	// look-ahead annotations (what the trace itself tells about choices the model leaves open):
 	//  v.dispatch.A = number of handler executions this request got in this run
 	//  c.dispatch.S = 1 if the error completion of this response ran on the dispatching goroutine
+	//  v.dispatch.B = 1 if a request for an unknown method was answered without ever reaching handleRequest
 	begins := map[int]int{}
 	errGid := map[int]uint64{}
+	handled := map[int]bool{}
+	answered := map[int]bool{}
 	for _, e := range evs {
 		if e.Ev == "h.begin" {
 			begins[e.C]++
+		}
+		if e.Ev == "v.handle" {
+			handled[e.Seq] = true
+		}
+		if e.Ev == "w.write" && e.K == "s2c" {
+			answered[e.Seq] = true
 		}
 		if e.Ev == "c.errdone" {
 			errGid[e.Seq] = e.gid
@@ -794,8 +862,16 @@ func (r *ConnRun) trace() []*Ev {
 		switch e.Ev {
 		case "v.dispatch":
 			e.A = 0
+			e.B = 0
 			if id, ok := r.Run.idBySeq[e.Seq]; ok {
 				e.A = begins[id]
+				e.C = id
+				if inSet(r.cfg.NoMethod, id) && !handled[e.Seq] && answered[e.Seq] {
+					e.B = 1
+				}
+			}
+		case "v.handle":
+			if id, ok := r.Run.idBySeq[e.Seq]; ok {
 				e.C = id
 			}
 		case "c.dispatch":
@@ -809,8 +885,12 @@ func (r *ConnRun) trace() []*Ev {
 	var out []*Ev
 	for _, e := range evs {
 		switch e.Ev {
-		case "v.respond", "v.handle", "v.wg.add", "v.wait.begin", "v.wait.end", "v.codec.closed", "v.done", "c.closed":
+		case "v.respond", "v.wg.add", "v.wait.begin", "v.wait.end", "v.codec.closed", "v.done", "c.closed":
 			continue // not modelled by the unary trace spec (teardown is checked by its own spec)
+		case "v.handle":
+			if !inSet(r.cfg.NoMethod, e.C) {
+				continue // handleRequest of an ordinary request: its handler's h.begin is the modelled step
+			}
 		}
 		if e.Ev == "w.close" && e.K != "cli" {
 			continue
